@@ -601,7 +601,8 @@ impl Locale {
                 }
                 continue;
             };
-            let key = Key::new(&base_key).unwrap_at("merge_plurals_1");
+            // the base key is user input (`type_one`, `_other`, ..): it may not be a valid identifier
+            let key = Key::try_new(&base_key)?;
             key_path.push_key(key);
             if !cfg!(feature = "plurals") && !SKIP_ICU_CFG.get() {
                 return Err(Error::DisabledPlurals {
